@@ -471,8 +471,16 @@ def session_case(draw):
     reqs = draw(st.lists(st.one_of(
         st.tuples(st.just("put"), size, st.just(0)),
         st.tuples(st.just("get"), size, size)), min_size=2, max_size=5))
+    # temp: every request over a temporary connection of its own (no
+    # explicit connect; the client's address comes back each time) while the
+    # server threads are descheduled now and then, so that a finished
+    # connection's end may still exist when the next one arrives
+    temp = draw(st.sampled_from([False, False, True]))
+    stalls = draw(st.lists(st.tuples(
+        st.just("serve"), st.integers(1, 60),
+        st.sampled_from([0.002, 0.01, 0.05])), max_size=4)) if temp else []
     return dict(lk, kind="session", reqs=[list(r) for r in reqs],
-                fill=draw(FILL),
+                fill=draw(FILL), temp=temp, stalls=[list(x) for x in stalls],
                 srv_miu=draw(st.sampled_from([128, 128, 248, 1984])),
                 srv_rw=draw(st.integers(1, 6)),
                 seed=draw(st.integers(0, 255)))
@@ -488,6 +496,7 @@ def run_session(case, ctx):
                       "lrt": case["lrt"], "brs": case["brs"]}
     P = p2p.Pair(case["choices"], seed=case["seed"], opts_i=opts["i"],
                  opts_t=opts["t"])
+    P.sched.stalls = [list(x) for x in case.get("stalls", [])]
     reqs = [(op, message(norm_size(n), case["seed"] + 3 * k,
                          period_of(case)),
              message(norm_size(m), case["seed"] + 3 * k + 1,
@@ -513,14 +522,16 @@ def run_session(case, ctx):
         def client(llc):
             c = nfc.snep.SnepClient(llc, max_ndef_msg_recv_size=100000)
             try:
-                c.connect("urn:nfc:sn:snep")
+                if not case.get("temp"):
+                    c.connect("urn:nfc:sn:snep")
                 for op, msg, ans in reqs:
                     if op == "put":
                         results.append(c.put_octets(msg))
                     else:
                         r = c.get_octets(msg, timeout=5.0)
                         results.append(None if r is None else bytes(r))
-                c.close()
+                if not case.get("temp"):
+                    c.close()
             except nfc.snep.SnepError as e:
                 out["snep_error"] = e.errno
             except nfc.llcp.Error as e:
@@ -572,6 +583,8 @@ def run_session(case, ctx):
                            else (results[k] if results[k] is True
                                  else len(results[k]))))
     ctx.label("requests:%d" % len(reqs))
+    if case.get("temp"):
+        ctx.label("temporary-connections")
     if any(op == "get" and (len(ans) + 6) % 128 < 3 or
            (len(ans) + 6) % 128 > 125 for op, msg, ans in reqs):
         ctx.label("response-at-miu-boundary")
